@@ -102,13 +102,21 @@ def run(prop: str, tier: str, seed: int) -> int:
         hi = max(max(r) for r in M)
         cand = [np.int64, np.uint64] + ([np.int32] if hi < 2 ** 31 else []) + ([np.int16] if hi < 2 ** 15 else []) \
             + ([np.uint8] if hi < 2 ** 8 else [])
+        all_tours = n <= 5 and rng.random() < 0.3
+        user_lb, mult = 0, 1
+        if all_tours and rng.random() < 0.7:
+            # a caller-supplied (valid) lower bound and a range multiplier: the constructor combines them with its own
+            best = min(sum(M[p[i]][p[(i + 1) % n]] for i in range(n)) for p in itertools.permutations(range(n)))
+            user_lb = max(0, best - rng.choice([0, 0, 1, rng.randint(0, max(1, best))]))
+            mult = rng.choice([1, 1, 2, 7])
         try:
-            inst = ts.make_instance(M, dtype=rng.choice(cand))
-        except ValueError as ex:
+            inst = ts.mods()["Instance"]("v", user_lb, np.array(M, dtype=rng.choice(cand)), mult)
+        except (ValueError, TypeError) as ex:
             rep.violations.append(core.Verdict(f"rand-{k}", "constructor-rejects-valid-matrix",
-                                               {"M": M, "error": str(ex)[:160]}))
+                                               {"M": [[big(v) for v in r] for r in M], "user_lb": user_lb,
+                                                "mult": mult, "error": str(ex)[:160], "tours": []}))
             continue
-        if n <= 5 and rng.random() < 0.3:
+        if all_tours:
             tours = [list(p) for p in itertools.permutations(range(n))]
         else:
             tours = []
@@ -117,7 +125,8 @@ def run(prop: str, tier: str, seed: int) -> int:
                 rng.shuffle(p)
                 tours.append(p)
         cases.append(record(f"rand-{k}", M, inst, tours))
-        rep.family("random-matrices", len(tours), len(tours))
+        cases[-1]["user_lb"], cases[-1]["mult"] = big(user_lb), mult
+        rep.family("random-matrices" + ("+caller-supplied-lower-bound" if user_lb else ""), len(tours), len(tours))
         rep.nontrivial += len(tours)
         if len(rep.samples) < 3 and hi > 2 ** 31:
             c = cases[-1]
@@ -140,6 +149,9 @@ def run(prop: str, tier: str, seed: int) -> int:
         # the shipped instances carry published lower bounds: rebuild them with lb = 0 as well
         cases.append(record(f"shipped-{nm}", M, ts.make_instance(M), tours))
         rep.family("shipped-matrices(own bounds)", len(tours), len(tours))
+        # ... and as shipped: the published optimum is the lower bound
+        cases.append(record(f"resource-{nm}", M, inst, tours))
+        rep.family("shipped-instances(published bounds)", len(tours), len(tours))
     vs = core.validate("tsp/Trace_TSP", cases, cfg_text=_trace_cfg(), shards=14)
     core.classify(rep, vs, {c["id"]: c for c in cases}, family="recorded")
     rep.traces += sum(len(c["tours"]) for c in cases)
@@ -153,7 +165,14 @@ def run(prop: str, tier: str, seed: int) -> int:
 
 def replay(prop: str, case: dict) -> dict:
     M = [[core.unbig(v) for v in row] for row in case["M"]]
-    inst = ts.make_instance(M)
+    if case.get("id", "").startswith("resource-"):
+        inst = ts.mods()["Instance"].from_resource(case["id"][len("resource-"):])
+    else:
+        try:
+            inst = ts.mods()["Instance"]("v", core.unbig(case["user_lb"]) if "user_lb" in case else 0,
+                                         np.array(M, dtype=np.int64), case.get("mult", 1))
+        except (ValueError, TypeError) as ex:
+            return {"clause": "constructor-rejects-valid-matrix", "case": {**case, "error": str(ex)[:160]}}
     rec = record("replay", M, inst, [[c - 1 for c in t["x"]] for t in case["tours"]])
     vs = core.validate("tsp/Trace_TSP", [rec], cfg_text=_trace_cfg())
     return {"clause": vs["replay"], "case": rec}
